@@ -70,7 +70,7 @@ func Run(tier string, seed uint64, modelPath, repo string, out *res.Result) erro
 	}
 	out.Rule = "P1: declarations = (harvested test literals | property x 1-4 atoms drawn from the atoms the real validator accepts for it, " +
 		"atoms = every keyword literal of the validators + lengths in all units, %, numbers, colours, strings, urls, functions) x 2 spelling variants; " +
-		"P2: four-sides / border-radius / flex / generic shorthands with 1-5 component values vs explicit longhands and vs the model; " +
+		"P2: four-sides / border-radius / flex / generic shorthands with 1-5 component values vs explicit longhands and vs the model; background shorthands with 1-4 layers (image, position/size, repeat, attachment, one or two boxes per layer, colour on the last) vs the explicit longhand lists; " +
 		"P3: blocks of 2-6 declarations with 1-3 invalid ones interleaved; P4: var() graphs on a probe element (worker process). " +
 		"non-trivial = the base declaration is accepted and the variant differs textually (P1), the shorthand is accepted (P2), " +
 		"at least one valid and one invalid declaration (P3), at least one var() reference (P4); distinct by full input text"
@@ -93,6 +93,7 @@ func Run(tier string, seed uint64, modelPath, repo string, out *res.Result) erro
 	if err := rn.shorthands(r.Sub(), nShort); err != nil {
 		return err
 	}
+	rn.backgrounds(r.Sub(), nShort/4)
 	if err := rn.blocks(r.Sub(), nBlocks); err != nil {
 		return err
 	}
